@@ -697,8 +697,12 @@ def selective_case(seed, adversarial=True):
             bound_keys = rw.default_bound_keys(3, ncpu, levelmax)
         octs = rw.build_tree(ndim, levelmin, levelmax, rng=rng, ncpu=ncpu, bound_keys=bound_keys, variables=hydro_vars,
                              refine_fraction=rng.choice([0.0, 0.2, 0.5]))
+        # box length and length unit of the output (positions are boxlen * unit_l * code coordinate, in cm)
+        boxlen = rng.choice([1.0, 1.0, 0.4, 2.0])
+        unit_l = rng.choice([1.0, 3.0])
+        L = boxlen * unit_l
         rw.write_output(tmp, 1, octs, ndim=ndim, ncpu=ncpu, levelmin=levelmin, levelmax=levelmax, hydro_vars=hydro_vars,
-                        bound_keys=bound_keys, ghosts=rw.random_ghosts(octs, ncpu, rng))
+                        bound_keys=bound_keys, ghosts=rw.random_ghosts(octs, ncpu, rng), boxlen=boxlen, unit_l=unit_l)
         quiet = contextlib.redirect_stdout(io.StringIO())
         with quiet:
             full = osyris.RamsesDataset(1, path=tmp).load()
@@ -706,7 +710,7 @@ def selective_case(seed, adversarial=True):
         P = np.stack([np.asarray(getattr(fm["position"], c).values, float) for c in "xyz"], axis=1)
         rho = np.asarray(fm["density"].values, float)
         nfin = 2 ** levelmax
-        desc = {"seed": seed, "levelmax": levelmax, "ncpu": ncpu, "bound_keys": bound_keys}
+        desc = {"seed": seed, "levelmax": levelmax, "ncpu": ncpu, "bound_keys": bound_keys, "boxlen": boxlen, "unit_l": unit_l}
         leaf_rows = [r for r in range(len(rho))]
         for trial in range(8):
             axes = rng.sample("xyz", rng.choice([1, 2, 3]))
@@ -717,7 +721,7 @@ def selective_case(seed, adversarial=True):
                 coarse = np.argsort(np.asarray(fm["level"].values))[: max(1, len(rho) // 4)]
                 row = int(rng.choice(list(coarse)))
                 for k, a in enumerate("xyz"):
-                    lo, hi = P[row, k] - 0.5 / nfin, P[row, k] + 0.5 / nfin
+                    lo, hi = P[row, k] - 0.5 * L / nfin, P[row, k] + 0.5 * L / nfin
                     lims[a] = (lo, hi)
                     sel["position_" + a] = (lambda x, lo=lo, hi=hi: (x >= osyris.Array(lo, unit="cm")) & (x <= osyris.Array(hi, unit="cm")))
                 axes = []
@@ -726,7 +730,7 @@ def selective_case(seed, adversarial=True):
                 i0 = rng.randrange(nfin)
                 w = rng.choice([1, 1, 2, 3, nfin // 2, nfin])
                 i1 = min(nfin - 1, i0 + w - 1)
-                lo, hi = i0 / nfin, (i1 + 1) / nfin
+                lo, hi = L * i0 / nfin, L * (i1 + 1) / nfin
                 lims[a] = (lo, hi)
                 sel["position_" + a] = (lambda x, lo=lo, hi=hi: (x >= osyris.Array(lo, unit="cm")) & (x <= osyris.Array(hi, unit="cm")))
             thr = float(np.median(rho)) if rng.random() < 0.5 else None
